@@ -20,9 +20,9 @@ import (
 	"encoding/hex"
 	"encoding/json"
 	"fmt"
-	"strings"
 	"math/big"
 	"strconv"
+	"strings"
 	"testing"
 	"time"
 
